@@ -3,6 +3,8 @@
 pub mod c02;
 pub mod c03;
 pub mod c07;
+pub mod c08;
+pub mod c09;
 pub mod c12;
 pub mod common;
 pub mod c13;
@@ -142,6 +144,30 @@ fn build_registry() -> Vec<PropDef> {
         watchdog_quick: 400,
         watchdog_thorough: 3000,
         exhaustive_note: None,
+    },
+    PropDef {
+        id: "C08",
+        level: "exploration",
+        cases_quick: 4_000,
+        cases_thorough: 500_000,
+        run_case: c08::run_case,
+        rule: "one case = a random binary tree (depth <= 5, optional missing children, scrambled arena; int / dyadic / short-float) into which equal-terminal subtrees (=> cascading merges over several levels), equal siblings under the root and near-miss sibling pairs (differing in one bias entry, in one coefficient by 1 ulp, in one bias by 1 ulp, or only in 0.0 vs -0.0) were planted; reduce() is checked against an independent recursive reference reduce (result must be isomorphic), exact evaluation before/after on ~150 probe inputs with no tolerance and no exemption, len non-increasing, surviving nodes keep index and function, second reduce() is a structural no-op, no non-root decision with two identical terminal children remains. Non-trivial = at least one merge happened; distinct = structural hash.",
+        assumptions: &["'same affine function' is f64 equality of all coefficients (0.0 == -0.0), as in the library"],
+        watchdog_quick: 300,
+        watchdog_thorough: 2400,
+        exhaustive_note: None,
+    },
+    PropDef {
+        id: "C09",
+        level: "exploration",
+        cases_quick: 2_000,
+        cases_thorough: 200_000,
+        run_case: c09::run_case,
+        rule: "one case = a random binary tree (depth <= 5, 0/25% missing children, planted contradictions, occasional zero predicates, scrambled arena with non-contiguous indices). Checked: the complete polyhedra() stream (pre-order, depth, sibling counter, reported halfspaces equal the exact path rows sign included), the same stream under random and repeated skip_subtree calls (every reported path condition must still be the node's own), find_terminal's node and label sequence against the exact walk and the parent links, every probe input (lattices, cell interiors, points exactly on hyperplanes, gaussian) satisfies the reported closed conditions of every node on its route, the exact max-slack interior point of every node's reported region is routed through that node, pairwise exact interior-disjointness of all terminal regions (<= 24 terminals), and for total trees that every half-integer lattice point reaches a terminal whose reported region contains it. Non-trivial = depth >= 3 or an input lay exactly on a hyperplane of its route; distinct = structural hash.",
+        assumptions: &["closed-region convention: A x <= b goes to label 1, the reported polytope of label 0 is the closed negation; inputs on a hyperplane lie in both reported polytopes and are routed to label 1", "float regime inputs within relative 1e-9 of a hyperplane on their route are skipped"],
+        watchdog_quick: 400,
+        watchdog_thorough: 3000,
+        exhaustive_note: Some("pairwise disjointness is complete over all terminal pairs of each tree with <= 24 terminals"),
     },
     ]
 }
